@@ -1,0 +1,50 @@
+//go:build verif
+
+package expressions
+
+// Contracts for govc (see /verif/DESIGN.md, C08). Comment-only file.
+
+// A KeyBuilder always owns a function table (NewKeyBuilderEx makes it; the field is unexported,
+// so no other package can reset it).
+//@ func NewKeyBuilderEx
+//@   ensures result != nil && result.functions != nil
+//@ func NewKeyBuilder
+//@   ensures result != nil && result.functions != nil
+//@ func (*KeyBuilder).Func
+//@   requires [objinv] s.functions != nil
+//@   ensures s.functions == old(s.functions)
+//@ func (*KeyBuilder).Funcs
+//@   requires [objinv] s.functions != nil
+//@   loop 1 invariant s.functions == old(s.functions) && s.functions != nil
+
+// A helper constructor builds a stage from compiled argument stages; it has no access to the
+// builder that calls it.
+//@ functype rare/pkg/expressions.KeyBuilderFunction
+//@   modifies world except KeyBuilder
+
+// Collected compile errors: the list only ever holds the records add() allocates.
+//@ nonnil *rare/pkg/expressions.DetailedError
+//@ func (*CompilerErrors).inherit
+//@   requires other != nil
+//@   modifies world except KeyBuilder
+
+// Compile scans the template rune by rune; a statement starts at or before the scan position
+//@ func (*KeyBuilder).Compile
+//@   requires [objinv] s.functions != nil
+//@   modifies world except KeyBuilder
+//@   ensures result0 != nil
+//@   loop 1 invariant 0 <= startStatement && startStatement <= i && i <= len(runes) && s.functions != nil
+//@   loop 2 invariant 0 <= startStatement && startStatement <= i && i < len(runes) && s.functions != nil
+
+// helpers of the compiler: they build new values; none of them can reach a KeyBuilder
+//@ func splitTokenizedArguments
+//@   modifies world except KeyBuilder
+//@ func (*CompiledKeyBuilder).optimize
+//@   modifies world except KeyBuilder
+//@   ensures result != nil
+//@ func (*CompiledKeyBuilder).joinStages
+//@   modifies world except KeyBuilder
+//@ func EvalStaticStage
+//@   pure
+//@ func (*CompilerErrors).add
+//@   modifies world except KeyBuilder
